@@ -507,7 +507,13 @@ def coerce_param(ty, v):
         raise Unspecified("parameter type %s" % ty)
     if v is None or ok:
         return v
-    raise Unspecified("argument does not conform to the parameter type")
+    # an argument that does not conform is converted: a list of one conforming item to that item, anything else to null (DMN 10.3.2.9.4
+    # implicit conversions; the same rule for positional and named arguments)
+    if isinstance(v, list) and len(v) == 1:
+        one = v[0]
+        if {"number": is_num(one), "string": isinstance(one, str), "boolean": isinstance(one, bool)}[ty]:
+            return one
+    return None
 
 
 def builtin(name, args):
